@@ -61,9 +61,9 @@ theorem JitSeq_muldivmod (e : Em) (pc opc src dst : Nat) (imm : Int) : emitMuldi
 /-- `resolve_jumps` (target location = the anchor of a special target, else `pc_locs[target]`; rel32 = target - (field + 4), written into the field; nothing written
     in the size-only pass), the std `JitMemory::new` (size-only pass; buffer = `round_up_to_page(max(size, PAGE_SIZE))`; second pass; `resolve_jumps`) and
     `round_up_to_page` have the shapes the model's `resolveJumps` / `compile` / `bufferSize` mirror; the page size is the model's -/
-theorem JitSeq_shapes : emitBytesShape = true ∧ resolveJumpsShape = true ∧ jitMemoryNewShape = true ∧ roundUpShape = true ∧ pageSizeSrc = 4096 ∧
+theorem JitSeq_shapes : emitBytesShape = true ∧ resolveJumpsShape = true ∧ jitMemoryNewShape = true ∧ jitMemoryNewNoStdShape = true ∧ roundUpShape = true ∧ pageSizeSrc = 4096 ∧
     (∀ n, bufferSize n = ((max n pageSizeSrc) + (pageSizeSrc - 1)) / pageSizeSrc * pageSizeSrc) := by
-  refine ⟨by decide, by decide, by decide, by decide, by decide, ?_⟩
+  refine ⟨by decide, by decide, by decide, by decide, by decide, by decide, ?_⟩
   intro n; rfl
 
 end Rbpf
